@@ -86,6 +86,24 @@ PROPS = {
                             "model: pyannote Segment (duration / bool with SEGMENT_PRECISION)", "model: python aggregates over generator expressions",
                             "S6 dataclass equality"],
     ),
+    "C15": dict(
+        functions=[SP + "StatisticalContinuumSampler.sample_from_continuum", SP + "AbstractContinuumSampler._has_been_init"]
+                  + [CT + "Continuum." + m for m in ("copy_flush", "add", "add_annotator", "__bool__")] + [CT + "Unit.__lt__"],
+        lawtags=True,
+        oracles=[SP + "StatisticalContinuumSampler.sample_from_continuum"],
+        bounded=[dict(oracle=SP + "StatisticalContinuumSampler.sample_from_continuum",
+                      what="init_sampling / init_sampling_custom / _set_* are not under a deductive contract (law tags only): measured parameters "
+                           "against numpy on random references, 40 seeded draws per case: validity clauses again, plus a loose 6-standard-error "
+                           "check of the mean duration")],
+        design_ref="DESIGN.md section 4 C15",
+        not_decided=["convergence of empirical statistics over many draws is a statistical statement: the contracts pin the law and the parameters "
+                     "of every draw site (law tags) and where the parameters come from; a subtly biased NumPy generator would not be noticed",
+                     "the gap list is defined by the code (leading 0, inter-unit gaps, positive first-unit offsets): from-code, flagged",
+                     "the boundary draw end - start == SEGMENT_PRECISION exits the redraw loop and is rejected by Continuum.add (ValueError, no "
+                     "continuum emitted): measure-zero, declared as an exceptional exit"],
+        trusted=S_COMMON + ["model: random generators return a value in the support of the requested law",
+                            "law tags are syntactic data-flow facts (no SMT)", "model: sortedcontainers"],
+    ),
     "C16": dict(
         functions=[SP + "ShuffleContinuumSampler._remove_pivot_segment"] + [CT + "Continuum." + m for m in (
             "copy_flush", "add", "add_annotator", "iter_annotator", "bounds", "__bool__")] + [CT + "Unit.__lt__"],
